@@ -259,7 +259,7 @@ Tm(o, p, s, k, pk) ==
     [] o = "reduce" -> IF s.b THEN R(s, <<N(s.c), C>>, TRUE) ELSE R(s, <<E("empty")>>, TRUE)
     [] o = "reduce_seed" -> R(s, <<N(IF s.b THEN s.c ELSE p.d), C>>, TRUE)
     [] o \in {"count", "count_p", "sum", "sum_key"} -> R(s, <<N(s.c), C>>, TRUE)
-    [] o \in {"average", "average_key"} -> IF s.q = <<>> THEN R(s, <<E("any")>>, TRUE) ELSE R(s, <<N(<<s.c, Len(s.q)>>), C>>, TRUE)
+    [] o \in {"average", "average_key"} -> IF s.q = <<>> THEN R(s, <<E("empty")>>, TRUE) ELSE R(s, <<N(<<s.c, Len(s.q)>>), C>>, TRUE)   \* "empty input yields SequenceContainsNoElementsError"
     [] o \in {"min", "max", "min_cmp", "max_cmp"} -> IF s.b THEN R(s, <<N(s.c), C>>, TRUE) ELSE R(s, <<E("empty")>>, TRUE)
     [] o \in {"min_by", "max_by", "to_list"} -> R(s, <<N(s.q), C>>, TRUE)
     [] o = "to_set" -> R(s, <<N({s.q[j] : j \in 1..Len(s.q)}), C>>, TRUE)
